@@ -5,6 +5,7 @@ import (
 	"fmt"
 	"math/rand"
 	"sort"
+	"sync/atomic"
 	"time"
 
 	"verif/harness/sim"
@@ -18,6 +19,11 @@ type Cfg struct {
 	RandSeed int64  `json:"rand_seed"` // math/rand seed (Join(-1) pick)
 	OrderKey uint64 `json:"order_key"` // permutation of the available-seat lists (map iteration order)
 	Mode     string `json:"mode"`      // seq | conc
+	// Gen: concurrent mode over the generated copy (a scheduling point before
+	// every statement of seat_manager, lock acquisitions visible); ParkP is
+	// the probability of parking at such a point
+	Gen   bool    `json:"gen,omitempty"`
+	ParkP float64 `json:"park_p,omitempty"`
 }
 
 type player struct {
@@ -83,8 +89,11 @@ func newRun(cfg *Cfg, opt sim.Options) *run {
 	}
 	sm.VerifYield = nil
 	if cfg.Mode == "conc" {
-		r.sc = &sched{byGo: map[int64]*gor{}}
+		r.sc = &sched{byGo: map[int64]*gor{}, parkP: cfg.ParkP}
 		sm.VerifYield = r.sc.yield
+		if cfg.Gen {
+			installGen(r.sc.yieldGen, r.sc.blocked)
+		}
 	}
 	r.m = sm.NewSeatManager(cfg.Max)
 	return r
@@ -167,6 +176,8 @@ func (r *run) exec(op opSpec) (res opResult) {
 		res.Err = errName(r.m.Reserve(op.Seat))
 	case "next":
 		res.Err = errName(r.m.Next())
+	case "get":
+		res.Val = r.readOnly(op.Seat)
 	case "restart":
 		// crash / restart: the table layer keeps the seat map as a
 		// SeatManagerState and rebuilds the manager with ApplyStates
@@ -180,6 +191,60 @@ func (r *run) exec(op opSpec) (res opResult) {
 		r.m = nm
 	}
 	return
+}
+
+// readOnly makes one of the read-only calls a table loop, a lobby or a
+// display makes; what it returned is rendered right away (the pointers it
+// hands out are live).
+func (r *run) readOnly(which int) string {
+	n := r.cfg.Max
+	seatStr := func(ss []*sm.Seat) string {
+		out := ""
+		for _, s := range ss {
+			if s == nil {
+				out += "nil "
+				continue
+			}
+			occ := int32(0)
+			if s.Player != nil {
+				if p, ok := s.Player.(int32); ok {
+					occ = p
+				} else {
+					occ = -1
+				}
+			}
+			out += fmt.Sprintf("%d:%d:%v:%v ", s.ID, occ, s.IsReserved, s.IsActive)
+		}
+		return out
+	}
+	switch which % 8 {
+	case 0:
+		a, b := r.m.GetAvailableSeats()
+		a, b = append([]int(nil), a...), append([]int(nil), b...)
+		sort.Ints(a)
+		sort.Ints(b)
+		return fmt.Sprintf("available %v %v", a, b)
+	case 1:
+		return fmt.Sprintf("available-count %d", r.m.GetAvailableSeatCount())
+	case 2:
+		return fmt.Sprintf("players %d", r.m.GetPlayerCount())
+	case 3:
+		return "seats " + seatStr(r.m.GetSeats())
+	case 4:
+		return "normalized " + seatStr(r.m.GetNormalizeSeats((which/8)%n))
+	case 5:
+		return "seat " + seatStr([]*sm.Seat{r.m.GetSeat((which / 8) % n)})
+	case 6:
+		if r.m.Dealer() == nil {
+			return "no dealer yet" // GetPlayableSeats needs one
+		}
+		return "playable " + seatStr(r.m.GetPlayableSeats())
+	default:
+		if r.m.Dealer() == nil {
+			return "no dealer yet"
+		}
+		return fmt.Sprintf("playable-count %d", r.m.GetPlayableSeatCount())
+	}
 }
 
 func stepOf(op opSpec) sim.Step {
@@ -559,7 +624,9 @@ func (r *run) quiet(E int, hands int, pid int32, dupJoin bool) {
 
 // ---- generation ----------------------------------------------------------------
 
-type World struct{}
+// World implements sim.World for world S. Gen selects the variant that runs
+// over the generated copy (needs the second simulator binary).
+type World struct{ Gen bool }
 
 func (World) Name() string { return "S" }
 
@@ -589,9 +656,18 @@ func drawCfg(rng *sim.RNG, prop string) *Cfg {
 func (w World) Generate(subseed uint64, o sim.Options) *sim.Result {
 	rng := sim.NewRNG(subseed)
 	cfg := drawCfg(rng, o.Property)
+	wname := "S"
+	if w.Gen {
+		if !GenAvailable() {
+			return &sim.Result{Fault: "world S over generated scheduling points needs the binary built over the generated copy"}
+		}
+		wname = "SY"
+		cfg.Mode, cfg.Gen = "conc", true
+		cfg.ParkP = []float64{0.5, 0.25, 1.0 / 16, 1.0 / 64}[rng.Intn(4)]
+	}
 	r := newRun(cfg, o)
 	cj, _ := json.Marshal(cfg)
-	c := &sim.Case{World: "S", Property: o.Property, SubSeed: subseed, Config: cj}
+	c := &sim.Case{World: wname, Property: o.Property, SubSeed: subseed, Config: cj}
 	if cfg.Mode == "conc" {
 		r.genConc(rng)
 	} else {
@@ -604,6 +680,7 @@ func (w World) Generate(subseed uint64, o sim.Options) *sim.Result {
 		r.res.Nontrivial = r.res.Counters["probe.concurrent-burst"] > 0
 	}
 	sm.VerifYield, sm.VerifOrder = nil, nil
+	installGen(nil, nil)
 	return r.res
 }
 
@@ -743,6 +820,20 @@ func (r *run) genSeq(rng *sim.RNG) {
 
 func (r *run) doConc(op opSpec) opResult { return r.exec(op) }
 
+// spawnRec records and spawns one operation goroutine. In the generated-copy
+// variant the goroutine gets its own parking stream; its seed goes into the
+// trace so that the replay parks at the same statements.
+func (r *run) spawnRec(rng *sim.RNG, actor string, gid int, op opSpec) *gor {
+	st := sim.Step{Actor: actor, Op: "go", Args: []int64{int64(gid), int64(op.Seat), int64(op.PID)}, SArgs: []string{op.Kind}}
+	seed := uint64(0)
+	if r.cfg.Gen {
+		seed = rng.Uint64()>>1 | 1
+		st.Args = append(st.Args, int64(seed))
+	}
+	r.record(st)
+	return r.concSpawnSeed(gid, op, seed)
+}
+
 func (r *run) genConc(rng *sim.RNG) {
 	n := r.cfg.Max
 	pid := int32(0)
@@ -763,8 +854,7 @@ func (r *run) genConc(rng *sim.RNG) {
 				}
 				gid++
 				total++
-				r.record(sim.Step{Actor: "player", Op: "go", Args: []int64{int64(gid), int64(op.Seat), int64(op.PID)}, SArgs: []string{op.Kind}})
-				g := r.concSpawn(gid, op)
+				g := r.spawnRec(rng, "player", gid, op)
 				for r.gState(g) != gFinished && !r.dead {
 					r.record(sim.Step{Actor: "sched", Op: "run", Args: []int64{int64(g.id)}})
 					if !r.concRun(g.id) {
@@ -776,8 +866,7 @@ func (r *run) genConc(rng *sim.RNG) {
 		if rng.Chance(0.6) {
 			gid++
 			total++
-			r.record(sim.Step{Actor: "table", Op: "go", Args: []int64{int64(gid), 0, 0}, SArgs: []string{"next"}})
-			g := r.concSpawn(gid, opSpec{Kind: "next"})
+			g := r.spawnRec(rng, "table", gid, opSpec{Kind: "next"})
 			for r.gState(g) != gFinished && !r.dead {
 				r.record(sim.Step{Actor: "sched", Op: "run", Args: []int64{int64(g.id)}})
 				if !r.concRun(g.id) {
@@ -792,8 +881,7 @@ func (r *run) genConc(rng *sim.RNG) {
 			op := r.randomOp(rng, nextPID)
 			gid++
 			total++
-			r.record(sim.Step{Actor: "player", Op: "go", Args: []int64{int64(gid), int64(op.Seat), int64(op.PID)}, SArgs: []string{op.Kind}})
-			g := r.concSpawn(gid, op)
+			g := r.spawnRec(rng, "player", gid, op)
 			for r.gState(g) != gFinished && !r.dead {
 				r.record(sim.Step{Actor: "sched", Op: "run", Args: []int64{int64(g.id)}})
 				if !r.concRun(g.id) {
@@ -808,10 +896,31 @@ func (r *run) genConc(rng *sim.RNG) {
 		if !r.on("C18") {
 			kind = 4
 		}
+		if r.cfg.Gen && rng.Chance(0.45) {
+			// generated-copy variant: 5 the same operation on the same seat
+			// several times over (with readers), 6 readers beside seat changes
+			kind = 5 + rng.Intn(2)
+		}
+		sameKind := []string{"reserve", "sit", "leave", "join"}[rng.Intn(4)]
 		if kind == 4 && k > 4 {
 			k = 2 + rng.Intn(3)
 		}
 		target := rng.Intn(n)
+		if r.cfg.Gen && kind == 5 && sameKind != "join" {
+			// aim at a seat somebody holds
+			var occ []int
+			for i, v := range r.seats() {
+				if v.occ {
+					occ = append(occ, i)
+				}
+			}
+			if len(occ) > 0 {
+				target = occ[rng.Intn(len(occ))]
+			}
+		}
+		if r.cfg.Gen && kind == 6 && rng.Chance(0.5) {
+			sameKind = "readers" // only read-only calls, of the kinds that walk the seats
+		}
 		for j := 0; j < k && total < 40; j++ {
 			var op opSpec
 			switch kind {
@@ -830,31 +939,87 @@ func (r *run) genConc(rng *sim.RNG) {
 						op.Seat = rng.Intn(n)
 					}
 				}
+			case 5:
+				switch {
+				case rng.Chance(0.25):
+					op = opSpec{Kind: "get", Seat: rng.Intn(8 * n)}
+				case sameKind == "join":
+					op = opSpec{Kind: "join", Seat: target, PID: nextPID()}
+				default:
+					op = opSpec{Kind: sameKind, Seat: target}
+				}
+			case 6:
+				if sameKind == "readers" {
+					op = opSpec{Kind: "get", Seat: []int{0, 3, 4, 4, 6, 6}[rng.Intn(6)] + 8*rng.Intn(n)}
+				} else if rng.Chance(0.6) {
+					op = opSpec{Kind: "get", Seat: rng.Intn(8 * n)}
+				} else {
+					op = r.randomOp(rng, nextPID)
+				}
 			default:
 				op = r.randomOp(rng, nextPID)
 			}
 			gid++
 			total++
-			r.record(sim.Step{Actor: "player", Op: "go", Args: []int64{int64(gid), int64(op.Seat), int64(op.PID)}, SArgs: []string{op.Kind}})
-			r.concSpawn(gid, op)
+			r.spawnRec(rng, "player", gid, op)
 		}
 		// the schedule: release one parked goroutine at a time, PRNG-chosen
-		for !r.dead {
+		for steps := 0; !r.dead; steps++ {
 			p := r.sc.parked()
 			if len(p) == 0 {
 				break
+			}
+			if r.cfg.Gen {
+				// everybody still in flight keeps failing to take the lock:
+				// nobody will ever release it
+				// (each of them has tried again since anybody last executed a
+				// statement or returned)
+				stuck := true
+				now := atomic.LoadInt64(&r.sc.progress)
+				for _, g := range p {
+					if g.label != "blocked" || g.failAt != now {
+						stuck = false
+					}
+				}
+				if stuck {
+					r.viol("C18", "operations-never-return (deadlock)", fmt.Sprintf("%d operations keep failing to take the seat manager's lock and nothing else is left to run", len(p)))
+					r.dead = true
+					break
+				}
+				if steps > 40000 {
+					r.res.Fault = "watchdog: burst did not finish within 40000 scheduling steps"
+					r.dead = true
+					break
+				}
 			}
 			g := p[rng.Intn(len(p))]
 			r.record(sim.Step{Actor: "sched", Op: "run", Args: []int64{int64(g.id)}})
 			r.concRun(g.id)
 		}
 		r.concQuiesce()
+		if r.cfg.Gen && !r.dead && total < 40 && rng.Chance(0.6) {
+			// the next hand: whatever the burst left behind in derived state
+			// (counters, cached lists) shows in where the button goes; a
+			// single call is compared with the same call on a restored replica
+			gid++
+			total++
+			g := r.spawnRec(rng, "table", gid, opSpec{Kind: "next"})
+			for r.gState(g) != gFinished && !r.dead {
+				r.record(sim.Step{Actor: "sched", Op: "run", Args: []int64{int64(g.id)}})
+				if !r.concRun(g.id) {
+					break
+				}
+			}
+		}
 	}
 	r.concFinish()
 }
 
 func (r *run) randomOp(rng *sim.RNG, nextPID func() int32) opSpec {
 	n := r.cfg.Max
+	if r.cfg.Gen && rng.Chance(0.15) {
+		return opSpec{Kind: "get", Seat: rng.Intn(8 * n)}
+	}
 	switch rng.Weighted([]int{40, 20, 20, 5, 15}) {
 	case 0:
 		return opSpec{Kind: "join", Seat: rng.Intn(n+1) - 1, PID: nextPID()}
@@ -884,7 +1049,9 @@ func (r *run) findG(id int) *gor {
 	return nil
 }
 
-func (r *run) concSpawn(id int, op opSpec) *gor {
+func (r *run) concSpawn(id int, op opSpec) *gor { return r.concSpawnSeed(id, op, 0) }
+
+func (r *run) concSpawnSeed(id int, op opSpec, parkSeed uint64) *gor {
 	r.clock++
 	if r.sc.unfinished() == 0 {
 		if len(r.burstOps) > 0 {
@@ -892,7 +1059,7 @@ func (r *run) concSpawn(id int, op opSpec) *gor {
 		}
 		r.burstSnap = r.snapshot(r.m)
 	}
-	g := r.sc.spawn(id, op, r.doConc)
+	g := r.sc.spawn(id, op, r.doConc, parkSeed)
 	r.burstOps = append(r.burstOps, g)
 	if r.sc.fault != "" {
 		r.res.Fault = r.sc.fault
@@ -1006,12 +1173,23 @@ func (r *run) concFinish() {
 		return
 	}
 	// drain: anything still parked runs to completion in id order
-	for guard := 0; guard < 400 && !r.dead; guard++ {
+	limit := 400
+	if r.cfg.Gen {
+		limit = 40000
+	}
+	for guard := 0; guard < limit && !r.dead; guard++ {
 		p := r.sc.parked()
 		if len(p) == 0 {
 			break
 		}
-		r.concRun(p[0].id)
+		// in turn (a goroutine waiting for the lock must not starve its holder)
+		r.concRun(p[guard%len(p)].id)
+	}
+	if r.cfg.Gen && r.sc.unfinished() > 0 {
+		// only a shortened replay gets here: operations still in flight may
+		// hold the lock, so the seat manager cannot be examined any further
+		r.dead = true
+		return
 	}
 	r.concQuiesce()
 	if !r.on("C18") || len(r.hist) == 0 {
@@ -1024,7 +1202,7 @@ func (r *run) concFinish() {
 	mdl := seatModel
 	n := r.cfg.Max
 	mdl.Init = func() interface{} { return model{n: n} }
-	res := porcupine.CheckOperationsTimeout(mdl, r.hist, 20*time.Second)
+	res := porcupine.CheckOperationsTimeout(mdl, r.hist, r.lincheckBudget())
 	switch res {
 	case porcupine.Illegal:
 		r.viol("C18", "history-not-linearizable", fmt.Sprintf("no sequential order of %d seat operations explains the results: %s", len(r.hist), r.histString()))
@@ -1059,10 +1237,17 @@ func (r *run) concFinish() {
 			ok, _ := m.step(in, output.(opResult))
 			return ok, m
 		}
-		if porcupine.CheckOperationsTimeout(rm, ops, 20*time.Second) == porcupine.Illegal {
+		if porcupine.CheckOperationsTimeout(rm, ops, r.lincheckBudget()) == porcupine.Illegal {
 			r.viol("C18", "final-occupancy-not-explained", fmt.Sprintf("the seat map at quiescence matches no linearization: %s", r.histString()))
 		}
 	}
+}
+
+func (r *run) lincheckBudget() time.Duration {
+	if r.cfg.Gen {
+		return 5 * time.Second
+	}
+	return 20 * time.Second
 }
 
 func (r *run) histString() string {
@@ -1083,6 +1268,9 @@ func (w World) Replay(c *sim.Case, o sim.Options) *sim.Result {
 	if cfg.Max < 1 || cfg.Max > maxSeats {
 		return &sim.Result{Fault: "bad table size"}
 	}
+	if cfg.Gen && !GenAvailable() {
+		return &sim.Result{Fault: "this replay file needs the binary built over the generated copy (./verif.sh replay builds it)"}
+	}
 	r := newRun(&cfg, o)
 	cc := c.Clone()
 	for i := range c.Steps {
@@ -1098,7 +1286,11 @@ func (w World) Replay(c *sim.Case, o sim.Options) *sim.Result {
 			}
 		case st.Op == "go":
 			if cfg.Mode == "conc" && len(st.Args) >= 3 && len(st.SArgs) == 1 && r.findG(int(st.Args[0])) == nil {
-				r.concSpawn(int(st.Args[0]), opSpec{Kind: st.SArgs[0], Seat: int(st.Args[1]), PID: int32(st.Args[2])})
+				seed := uint64(0)
+				if len(st.Args) > 3 {
+					seed = uint64(st.Args[3])
+				}
+				r.concSpawnSeed(int(st.Args[0]), opSpec{Kind: st.SArgs[0], Seat: int(st.Args[1]), PID: int32(st.Args[2])}, seed)
 			}
 		case st.Op == "run":
 			if cfg.Mode == "conc" && len(st.Args) >= 1 {
@@ -1116,6 +1308,7 @@ func (w World) Replay(c *sim.Case, o sim.Options) *sim.Result {
 	cc.Steps = r.steps
 	r.res.Case = cc
 	sm.VerifYield, sm.VerifOrder = nil, nil
+	installGen(nil, nil)
 	return r.res
 }
 
@@ -1202,7 +1395,11 @@ func (r *run) burstDone() {
 	ops := r.burstOps
 	snap := r.burstSnap
 	r.burstOps, r.burstSnap = nil, nil
-	if r.dead || snap == nil || len(ops) < 2 || len(ops) > 5 {
+	minOps := 2
+	if r.cfg.Gen {
+		minOps = 1 // what went wrong in a burst may only show in the next call
+	}
+	if r.dead || snap == nil || len(ops) < minOps || len(ops) > 5 {
 		return
 	}
 	hasNext := false
